@@ -119,12 +119,19 @@ INFO = {
  "C17-m6": ("area weights lost when spaces share a loads definition", "two spaces sharing loads plus a third with other loads"),
  "C18-m5": ("quote trimming hoisted before multi-line list detection", "a quoted string starting with ( or a list line ending after a closing quote"),
  "C18-m6": ("off-by-one column in the KyG gains lines", "a window whose h2 differs from h3"),
+ "C19-m5": ("attribute-not-found error text shortened with String::truncate at a byte offset", "a deleted attribute line in a block whose dump has a multi-byte character across byte 160 (one line of casoA)"),
+ "C19-m6": ("BVH median split sorts with partial_cmp().unwrap()", "a 1e39 TILT / AZIMUTH / Z of a shade in a project with more than 30 occluders, through the tool's indicator stage"),
  "C20-m5": ("beam floor raised from 0.01 to 1 degree", "sun below 1 degree with direct radiation > 0"),
  "C20-m6": ("asin argument clamped on one side only", "afternoon sun exactly due west (NaN)"),
 }
 res = {}
 try:
     res = json.load(open('/verif/seeded/results.json'))
+except Exception:
+    pass
+thorough = {}
+try:
+    thorough = json.load(open('/verif/seeded/thorough_results.json'))
 except Exception:
     pass
 rows = []
@@ -139,13 +146,17 @@ for d in sorted(glob.glob('/verif/seeded/C*-m*')):
     r = res.get(name)
     if r:
         m['detection'] = r
+    if name in thorough:
+        m['detection_thorough'] = thorough[name]
     json.dump(m, open(mp, 'w'), indent=1, ensure_ascii=False)
     rows.append((name, m['property'], breaks, needs, r))
 with open('/verif/seeded/RESULTS.md', 'w') as f:
     f.write("# Seeded changes and the checks that catch them\n\nEach change was written by a sub-agent from the property text alone, confirmed in a scratch worktree (applies, repository suite passes with it, demonstration fails with it and passes without it; see meta.json), then applied to /repo, the quick check of its property run, and /repo restored (tools/try_seeded.sh).\n\n| change | what it breaks | needs | quick check of its property | signatures |\n|---|---|---|---|---|\n")
     for name, prop, breaks, needs, r in rows:
         if r:
-            f.write("| %s | %s | %s | %s | %s |\n" % (name, breaks, needs, "caught (exit 1)" if r.get('rc') == 1 else "NOT caught (exit %s)" % r.get('rc'), r.get('signatures', '')))
+            t = thorough.get(name)
+            verdict = "caught (exit 1)" if r.get('rc') == 1 else ("not by the quick tier; caught by the thorough tier (exit 1): %s" % t.get('signatures', '') if t and t.get('rc') == 1 else "NOT caught (exit %s)" % r.get('rc'))
+            f.write("| %s | %s | %s | %s | %s |\n" % (name, breaks, needs, verdict, r.get('signatures', '')))
         else:
             f.write("| %s | %s | %s | not run yet | |\n" % (name, breaks, needs))
 print("ok", len(rows))
